@@ -247,6 +247,10 @@ KNOWN = json.load(open(os.path.join(C.VERIF, "known_findings.json")))
 def p_c06(run):
     v = std_variants(run, ("native",))[0]
     kernel_tie(run, ("native", "w32"), ALL_PARTS)
+    # the parallel-ECB function of EVERY back end is the same list of procedure calls up to grouping, and block by block under
+    # the calls' contracts (WholePar.ppar_model): one statement for all back ends
+    import whole as W
+    whole_tie(run, ("native",), [p_ for p_ in W.ppar_parts(run.tier == "quick") if "_enc_" in p_ or run.tier != "quick"])
     for title, body, meta in G.gen_c06(run.rng, run.tier):
         kind = title.split()[0]
         bes = ["def", "v128", "v256"] if kind in ("c128", "p128") else ["def", "v128"]
@@ -304,6 +308,9 @@ def kf_c06_1_applies(lines, ln, res):
 def p_c07(run):
     cfgs = ("native", "no256", "nosimd") if run.tier == "quick" else ("native", "no256", "nosimd", "w32", "noua", "w32noua")
     kernel_tie(run, ("native", "w32"), ("scalar", "v128par", "v256par"))
+    import whole as W
+    q = run.tier == "quick"
+    whole_tie(run, ("native",) if q else ("native", "w32", "noua"), W.ppar_parts(q))
     run_scripts(run, G.gen_c07(run.rng, run.tier), std_variants(run, cfgs))
 
 def p_c09(run):
